@@ -208,3 +208,27 @@ package validate
 //@     invariant forall k types.String :: (has(attrs, k) && has(a.attrs, k) != has(b.attrs, k)) ==> !attrs[k].required
 //@     invariant forall k types.String :: has(attrs, k) ==> (has(a.attrs, k) || has(b.attrs, k))
 //@     invariant forall k types.String :: (has(attrs, k) && has(a.attrs, k) && has(b.attrs, k) && attrs[k].required) ==> (a.attrs[k].required && b.attrs[k].required)
+
+// `e is T` is typed True only if T is the *only* entity type e can have, and False only if e can never
+// have it (C15: the branch the validator skips as unreachable really is).
+//@ func (Validator) typeOfIs
+//@   props C15
+//@   results t, outCaps, err
+//@   ensures is_true: (err == nil && (t is typeTrue)) ==> ((v.typeOfExpr#0(env, n.Left, caps) is typeEntity) && (forall i int :: (0 <= i && i < len(v.typeOfExpr#0(env, n.Left, caps).(typeEntity).lub.elements)) ==> v.typeOfExpr#0(env, n.Left, caps).(typeEntity).lub.elements[i] == n.EntityType))
+//@   ensures is_false: (err == nil && (t is typeFalse)) ==> ((v.typeOfExpr#0(env, n.Left, caps) is typeEntity) && (forall i int :: (0 <= i && i < len(v.typeOfExpr#0(env, n.Left, caps).(typeEntity).lub.elements)) ==> v.typeOfExpr#0(env, n.Left, caps).(typeEntity).lub.elements[i] != n.EntityType))
+
+// `action in A` (scope or condition): an action is below A iff A is reachable through parent links.
+// descA is the transitive closure of "p is a parent of x in the schema": closed under a step (descA_step,
+// descA_trans) and nothing more (descA_inv: every descendant relation starts with a step). The walk has
+// no visited set; it ends because the resolver rejects cyclic action groups (not proved here, C16).
+//@ spec func parentA(A map[types.EntityUID]resolved.Action, x types.EntityUID, p types.EntityUID) bool = has(A, x) && has(A[x].Entity.Parents.m, p)
+//@ spec func descA(A map[types.EntityUID]resolved.Action, x types.EntityUID, y types.EntityUID) bool
+//@ axiom descA_step: forall A map[types.EntityUID]resolved.Action, x types.EntityUID, p types.EntityUID :: { has(A[x].Entity.Parents.m, p) } parentA(A, x, p) ==> descA(A, x, p)
+//@ axiom descA_trans: forall A map[types.EntityUID]resolved.Action, x types.EntityUID, p types.EntityUID, y types.EntityUID :: { has(A[x].Entity.Parents.m, p), descA(A, p, y) } (parentA(A, x, p) && descA(A, p, y)) ==> descA(A, x, y)
+//@ axiom descA_inv: forall A map[types.EntityUID]resolved.Action, x types.EntityUID, y types.EntityUID :: { descA(A, x, y) } descA(A, x, y) ==> (exists p types.EntityUID :: parentA(A, x, p) && (p == y || descA(A, p, y)))
+//@ func (Validator) isActionDescendant
+//@   props C15
+//@   results r
+//@   ensures exact: r == descA(v.schema.Actions, actionUID, ancestorUID)
+//@   loop 1
+//@     invariant forall p types.EntityUID :: $done[p] ==> (p != ancestorUID && !descA(v.schema.Actions, p, ancestorUID))
